@@ -57,7 +57,7 @@ class T:
         return hash((self.k, self.a))
 
     def __repr__(self):
-        if self.k in ("Class", "Opaque"):
+        if self.k in ("Class", "Opaque", "Ref"):
             return self.a[0]
         if not self.a:
             return self.k
@@ -80,7 +80,7 @@ def parse_ty(s, classes, opaque):
             if n.id.startswith("Frac") and n.id[4:].isdigit():
                 return T("Frac", int(n.id[4:]))
             if n.id in classes:
-                return T("Class", n.id)
+                return T("Ref", n.id) if classes[n.id].get("identity") else T("Class", n.id)
             if n.id in opaque:
                 return T("Opaque", n.id)
             raise Fail("unknown type %s in spec" % n.id)
@@ -90,6 +90,8 @@ def parse_ty(s, classes, opaque):
             args = n.slice.elts if isinstance(n.slice, ast.Tuple) else [n.slice]
             args = [go(a) for a in args]
             h = n.value.id
+            if h == "ByValue" and len(args) == 1 and args[0].k == "Ref":
+                return T("Class", args[0].a[0])  # an object of an identity class itself (inside its own methods, in the store)
             if h == "Optional" and len(args) == 1:
                 return T("Opt", args[0])
             if h == "List" and len(args) == 1:
@@ -154,14 +156,16 @@ class Path:
 class Val:
     """a translated expression: Lean text, type, the lvalue path it denotes (if any), may it raise"""
 
-    __slots__ = ("text", "ty", "path", "raises")
+    __slots__ = ("text", "ty", "path", "raises", "fresh", "view")
 
-    def __init__(self, text, ty, path=None, raises=False):
+    def __init__(self, text, ty, path=None, raises=False, fresh=False, view=False):
         self.text, self.ty, self.path, self.raises = text, ty, path, raises
+        self.fresh = fresh  # a newly built object (literal, comprehension, copy, constructor): nobody else holds it
+        self.view = view    # a live dict view (`d.keys()`): may only be iterated at once
 
 
 class Var:
-    __slots__ = ("name", "ty", "aliases", "dead", "reassigned", "token", "is_param", "narrowed", "loopvar", "reads")
+    __slots__ = ("name", "ty", "aliases", "dead", "reassigned", "token", "is_param", "narrowed", "loopvar", "reads", "untracked")
 
     def __init__(self, name, ty, token=None, is_param=False):
         self.name, self.ty, self.token, self.is_param = name, ty, token, is_param
@@ -171,6 +175,7 @@ class Var:
         self.narrowed = False
         self.loopvar = False
         self.reads = 0
+        self.untracked = None  # reason: the variable holds an object that is also reachable elsewhere, by a route the translator does not track
 
 
 class FnInfo:
@@ -274,6 +279,12 @@ class Area:
                 seen.add(lf)
                 fs[fname] = (lf, self.ty(fty))
             self.fields[c["py"]] = fs
+        for c in spec.CLASSES:
+            if c.get("identity"):
+                owner = c["identity"]["owner"]
+                if "store" in [v[0] for v in self.fields[owner].values()]:
+                    raise Fail("class %s already has a field called store" % owner)
+                self.fields[owner]["⟨store⟩"] = ("store", T("Store", c["py"]))
         self.inits = {}  # class -> [(param, type)] of its translated __init__
         self.fns = {}  # key: (cls or None, pyname) -> FnInfo
         self.pytypes = dict(common.PYTYPES)
@@ -282,6 +293,23 @@ class Area:
 
     def ty(self, s):
         return parse_ty(s, {k: v for k, v in self.classes.items() if not v.get("opaque")}, self.opaque)
+
+    def deref(self, fx, v, node):
+        """Lean text of the object behind the id `v` (type Ref): a raise site"""
+        owner, lf = self.store_of(v.ty.a[0])
+        if fx.cls != owner:
+            fx.fail("an object of the identity class %s is used outside the methods of its owner %s" % (v.ty.a[0], owner), node)
+        fx.read_var("self", node)
+        fx.monadic()
+        return "(← PyStore.get self.%s %s)" % (lf, v.text)
+
+    def cls_lean(self, cls):
+        """Lean name of the structure of a spec'd class"""
+        return self.classes[cls].get("lean") or cls.lstrip("_")
+
+    def store_of(self, cls):
+        """(owner class, lean field) of the store in which the objects of the identity class `cls` live"""
+        return self.classes[cls]["identity"]["owner"], "store"
 
     def self_ty(self, cls):
         """the type of `self` in the methods of a spec'd class: its structure, or the opaque model type that stands for it"""
@@ -313,11 +341,15 @@ class Area:
         if k == "Tuple":
             return "(" + " × ".join(self.lean_ty(x) for x in t.a) + ")"
         if k == "Class":
-            return t.a[0]
+            return self.cls_lean(t.a[0])
+        if k == "Ref":
+            return "Nat"
         if k == "Opaque":
             return self.opaque[t.a[0]]["lean"]
         if k == "Frac":
             return "Int"
+        if k == "Store":
+            return "(PyStore %s)" % self.cls_lean(t.a[0])
         raise Fail("no Lean type for %r" % t)
 
     def eq_of(self, t, fx=None):
@@ -477,12 +509,27 @@ class Fx:
 
     # ---- expressions
     def expr(self, e, want=None):
-        v = self.expr0(e, want)
-        return self.coerce(v, want, e)
+        cache = self.__dict__.setdefault("_once", {})
+        key = (id(e), repr(want))
+        if key in cache:
+            return cache[key]
+        if any(k[0] == id(e) for k in cache):
+            self.fail("an operand with effects would be evaluated twice: " + ast.unparse(e), e)
+        n0 = len(self.lines)
+        v = self.coerce(self.expr0(e, want), want, e)
+        if len(self.lines) != n0:
+            cache[key] = v  # it emitted statements (a call, popleft, …): a second translation must reuse the bound result
+            self.__dict__.setdefault("_once_keep", []).append(e)  # keep the node alive: ids must not be reused
+        return v
 
     def coerce(self, v, want, node):
         if want is None or v.ty == want:
             return v
+        if want == NUM and v.ty.k == "Frac" and self.spec.get("floor_frac_args"):
+            # a float that the spec declares integral where it is stored (see the spec's comment): its floor
+            return Val("(Int.fdiv %s %d)" % (v.text, v.ty.a[0]), NUM, None, v.raises)
+        if want.k == "Frac" and v.ty in (NUM, NAT):
+            return Val("(%s * %d)" % (v.text, want.a[0]), want, None, v.raises)
         if want.k == "Opt" and v.ty == want.a[0]:
             return Val("(some %s)" % v.text, want, None, v.raises)
         if want == NUM and v.ty == NAT:
@@ -510,6 +557,8 @@ class Fx:
                 self.fail("None where %r is expected" % want, e)
             if isinstance(c, bool):
                 return Val("true" if c else "false", BOOL)
+            if isinstance(c, float) and c == int(c):
+                c = int(c)
             if isinstance(c, int):
                 if want == NAT and c >= 0:
                     return Val(str(c), NAT)
@@ -522,6 +571,11 @@ class Fx:
             if v is not None:
                 p = Path(e.id) if is_mutable_ty(v.ty) else None
                 return Val(lean_local(e.id), v.ty, p)
+            if e.id in A.consts and isinstance(A.consts[e.id], float) and want is not None and want.k == "Frac":
+                n = A.consts[e.id] * want.a[0]
+                if abs(n - round(n)) > 1e-9:
+                    self.fail("constant %s is not a multiple of 1/%d" % (e.id, want.a[0]), e)
+                return Val(str(int(round(n))), want)
             if e.id in A.consts and isinstance(A.consts[e.id], (int, float)) and not isinstance(A.consts[e.id], bool):
                 c = A.consts[e.id]
                 if isinstance(c, float):
@@ -538,7 +592,7 @@ class Fx:
             t = want.a[0] if want.k == "Opt" else want
             if (isinstance(e, ast.List) and t.k != "List") or (isinstance(e, ast.Dict) and t.k not in ("Dict",)) or isinstance(e, ast.Set):
                 self.fail("empty literal %s where %r is expected" % (ast.unparse(e), want), e)
-            return Val(self.empty_of(t, e), t)
+            return Val(self.empty_of(t, e), t, fresh=True)
         if isinstance(e, ast.List):
             if want is not None and want.k != "List":
                 self.fail("list literal where %r is expected" % want, e)
@@ -547,7 +601,7 @@ class Fx:
             et = et or vs[0].ty
             if any(v.ty != et for v in vs):
                 self.fail("list literal with mixed element types", e)
-            return Val("[" + ", ".join(v.text for v in vs) + "]", T("List", et), None, any(v.raises for v in vs))
+            return Val("[" + ", ".join(v.text for v in vs) + "]", T("List", et), None, any(v.raises for v in vs), fresh=True)
         if isinstance(e, ast.Tuple):
             wants = want.a if (want is not None and want.k == "Tuple" and len(want.a) == len(e.elts)) else [None] * len(e.elts)
             vs = [self.expr(x, w) for x, w in zip(e.elts, wants)]
@@ -607,12 +661,12 @@ class Fx:
                 l = self.try_expr(e.left)
                 if l is not None and l.ty.k == "Set":
                     r = self.expr(e.right, l.ty)
-                    return Val("(PySet.diff %s %s %s)" % (A.eq_of(l.ty.a[0], self), l.text, r.text), l.ty, None, l.raises or r.raises)
+                    return Val("(PySet.diff %s %s %s)" % (A.eq_of(l.ty.a[0], self), l.text, r.text), l.ty, None, l.raises or r.raises, fresh=True)
             if isinstance(e.op, ast.Add):
                 l = self.try_expr(e.left)
                 if l is not None and l.ty.k == "List":
                     r = self.expr(e.right, l.ty)
-                    return Val("(%s ++ %s)" % (l.text, r.text), l.ty, None, l.raises or r.raises)
+                    return Val("(%s ++ %s)" % (l.text, r.text), l.ty, None, l.raises or r.raises, fresh=True)
             return self.numeric(e, want)
         if isinstance(e, ast.UnaryOp) and isinstance(e.op, ast.USub):
             return self.numeric(e, want)
@@ -627,6 +681,18 @@ class Fx:
         variant); -> True / False / None (not static)"""
         if isinstance(e, ast.Name) and e.id == "TYPE_CHECKING" and self.lookup(e.id) is None:
             return False  # typing.TYPE_CHECKING is False at run time
+        if isinstance(e, ast.Compare) and len(e.ops) == 1 and isinstance(e.ops[0], ast.Is) and isinstance(e.left, ast.Call) \
+                and isinstance(e.left.func, ast.Name) and e.left.func.id == "type" and len(e.left.args) == 1 and isinstance(e.comparators[0], ast.Name):
+            v = self.try_expr(e.left.args[0])
+            if v is not None and v.ty.k in ("Class", "Ref"):
+                return v.ty.a[0] == e.comparators[0].id  # the spec type is the exact class
+            return None
+        if isinstance(e, ast.Call) and isinstance(e.func, ast.Name) and e.func.id == "isinstance" and len(e.args) == 2 \
+                and isinstance(e.args[1], ast.Name) and e.args[1].id == "float":
+            v = self.try_expr(e.args[0])
+            if v is not None and v.ty in (NAT,):
+                return False  # a value the spec types as a natural number is an int
+            return None
         if isinstance(e, ast.UnaryOp) and isinstance(e.op, ast.Not):
             st = self.static_cond(e.operand)
             return None if st is None else not st
@@ -645,10 +711,13 @@ class Fx:
             return self.expr(e, want)
         except Fail:
             self.lines, self.info.monadic, self.info.uses_lower, self.tmp = snap
+            self.__dict__.get("_once", {}).clear()
             return None
 
     def numeric(self, e, want):
         n, d = FnTr(self).num(e)
+        if want is not None and want.k == "Frac" and want.a[0] % d == 0:
+            return Val(n if d == want.a[0] else "(%s * %d)" % (n, want.a[0] // d), want)
         if d != 1:
             if want is None:
                 # python float division by a constant, carried exactly: the Lean value is the numerator over the denominator d
@@ -668,9 +737,22 @@ class Fx:
                 return Val("(pyOrEmpty %s)" % av.text, t, None, av.raises)
         return None
 
+    def unwrap(self, v, node):
+        """attribute access on an Optional value: `None.x` raises AttributeError"""
+        if v.ty.k == "Opt":
+            self.monadic()
+            return Val("(← pyUnwrap %s)" % v.text, v.ty.a[0], None, True)
+        return v
+
     def attribute(self, e):
         A = self.area
-        base = self.expr(e.value)
+        base = self.unwrap(self.expr(e.value), e)
+        if base.ty.k == "Ref":
+            fs = A.fields[base.ty.a[0]]
+            if e.attr not in fs:
+                self.fail("class %s has no spec'd field %s" % (base.ty.a[0], e.attr), e)
+            lf, ft = fs[e.attr]
+            return Val("%s.%s" % (A.deref(self, base, e), lf), ft, None, True)
         if base.ty.k == "Class":
             fs = A.fields[base.ty.a[0]]
             if e.attr not in fs:
@@ -727,6 +809,9 @@ class Fx:
         if v.ty.k == "List":
             return v.text, v.ty.a[0], v.path, v.raises
         if v.ty.k == "Set":
+            if not getattr(self, "set_order_ok", 0):
+                self.fail("iteration over a set: CPython's order is hash order, the runtime's is insertion order (only len(), set(), membership "
+                          "and effects taking the set as a whole are in the subset)", e)
             return "(PySet.toList %s)" % v.text, v.ty.a[0], v.path, v.raises
         if v.ty.k == "Dict":
             return "(PyDict.keys %s)" % v.text, v.ty.a[0], v.path, v.raises
@@ -773,7 +858,7 @@ class Fx:
             text = "(List.filterMap (fun %s => if %s then some (%s, %s) else none) %s)" % (pat, " && ".join(c.text for c in conds), k, val.text, src)
         else:
             text = "(List.map (fun %s => (%s, %s)) %s)" % (pat, k, val.text, src)
-        return Val(text, T("Dict", et.a[0], val.ty), None, raises)
+        return Val(text, T("Dict", et.a[0], val.ty), None, raises, fresh=True)
 
     def comprehension(self, e, want):
         A = self.area
@@ -830,8 +915,8 @@ class Fx:
             else:
                 text = "(List.flatMap (fun %s => %s) %s)" % (pat, text, src)
         if is_set:
-            return Val("(PySet.ofList %s %s)" % (A.eq_of(elt.ty, self), text), T("Set", elt.ty), None, elt.raises)
-        return Val(text, T("List", elt.ty), None, elt.raises)
+            return Val("(PySet.ofList %s %s)" % (A.eq_of(elt.ty, self), text), T("Set", elt.ty), None, elt.raises, fresh=True)
+        return Val(text, T("List", elt.ty), None, elt.raises, fresh=True)
 
     # ---- conditions
     def cond_val(self, e, top=False):
@@ -852,7 +937,7 @@ class Fx:
             return neg("(PySet.isEmpty %s)" % v.text)
         if t.k == "Str":
             return "(!(String.isEmpty %s))" % v.text
-        if t.k == "Opt" and (t.a[0].k in ("Tuple", "Class") or (t.a[0].k == "Opaque" and self.area.opaque[t.a[0].a[0]].get("always_truthy"))):
+        if t.k == "Opt" and (t.a[0].k in ("Tuple", "Class", "Ref") or (t.a[0].k == "Opaque" and self.area.opaque[t.a[0].a[0]].get("always_truthy"))):
             return "(Option.isSome %s)" % v.text
         self.fail("truthiness of a value of type %r is outside the subset" % t, node)
 
@@ -886,7 +971,13 @@ class Fx:
             return neg(self.cond(e.operand))
         if isinstance(e, ast.Compare):
             if len(e.ops) != 1:
-                self.fail("chained comparison", e)
+                # a < b < c: the conjunction of the neighbouring comparisons (b is pure here: no statement may be emitted for it)
+                n0 = len(self.lines)
+                items = [e.left] + list(e.comparators)
+                parts = [self.cond(ast.Compare(left=items[i], ops=[e.ops[i]], comparators=[items[i + 1]])) for i in range(len(e.ops))]
+                if len(self.lines) != n0:
+                    self.fail("a chained comparison with effects", e)
+                return "(" + " && ".join(parts) + ")"
             op, l, r = e.ops[0], e.left, e.comparators[0]
             if isinstance(op, (ast.Is, ast.IsNot)):
                 if not (isinstance(r, ast.Constant) and r.value is None):
@@ -951,18 +1042,26 @@ class Fx:
         f = e.func
         if e.keywords:
             self.fail("keyword arguments are outside the subset: " + ast.unparse(e), e)
+        if isinstance(f, ast.Attribute) and ast.unparse(f) in self.env_fns:
+            f = ast.Name(id=ast.unparse(f), ctx=ast.Load())
         if isinstance(f, ast.Name):
             n = f.id
             if n == "bool" and len(e.args) == 1:
                 return Val(self.cond(e.args[0]), BOOL)
             if n in ("list", "reversed") and len(e.args) == 1:
                 t, et, _p, r = self.iterable(e)
-                return Val(t, T("List", et), None, r)
+                return Val(t, T("List", et), None, r, fresh=True)
+            if n == "set" and not e.args and want is not None and want.k == "Set":
+                return Val("PySet.empty", want, fresh=True)
             if n == "set" and len(e.args) == 1:
                 t, et, _p, r = self.iterable(e.args[0])
-                return Val("(PySet.ofList %s %s)" % (A.eq_of(et, self), t), T("Set", et), None, r)
+                return Val("(PySet.ofList %s %s)" % (A.eq_of(et, self), t), T("Set", et), None, r, fresh=True)
             if n == "len" and len(e.args) == 1:
-                t, et, _p, r = self.iterable(e.args[0])
+                self.set_order_ok = getattr(self, "set_order_ok", 0) + 1
+                try:
+                    t, et, _p, r = self.iterable(e.args[0])
+                finally:
+                    self.set_order_ok -= 1
                 return Val("(List.length %s)" % t, NAT, None, r)
             if n == "isinstance" and len(e.args) == 2:
                 st = self.static_cond(e)
@@ -972,7 +1071,11 @@ class Fx:
                 return Val(self.isinstance_text(v, e.args[1], e), BOOL, None, v.raises)
             if n == "cast" and len(e.args) == 2:
                 return self.expr(e.args[1], want)
-            if n in ("int", "float", "_int", "_float", "min", "max"):
+            if n in ("int", "_int") and len(e.args) == 1:
+                av = self.try_expr(e.args[0])
+                if av is not None and av.ty == NAT:
+                    return av
+            if n in ("int", "float", "_int", "_float", "min", "max") or n in getattr(A.spec, "NUMFUNCS", {}):
                 return self.numeric(e, want)
             if n in self.env_calls and not e.args:
                 if self.env_calls[n][1]:
@@ -984,17 +1087,41 @@ class Fx:
                 if len(ips) != len(e.args):
                     self.fail("%s(...) with %d arguments (its __init__ has %d)" % (n, len(e.args), len(ips)), e)
                 args = [self.expr(a, t) for a, (_n, t) in zip(e.args, ips)]
-                return Val("(%s.init%s)" % (n, "".join(" " + atom(a.text) for a in args)), T("Class", n), None, any(a.raises for a in args))
+                ctor = "(%s.init%s)" % (A.cls_lean(n), "".join(" " + atom(a.text) for a in args))
+                if A.classes[n].get("identity"):
+                    owner, sf = A.store_of(n)
+                    if self.cls != owner:
+                        self.fail("an object of the identity class %s is created outside its owner %s" % (n, owner), e)
+                    r = self.fresh("new")
+                    self.emit("let %s := PyStore.alloc self.%s %s" % (r, sf, ctor))
+                    self.assign_path(Path("self", (("f", "⟨store⟩", sf),)), "%s.2" % r, e)
+                    return Val("%s.1" % r, T("Ref", n), None, False)
+                return Val(ctor, T("Class", n), None, any(a.raises for a in args), fresh=True)
+            if n == "heappop" and len(e.args) == 1:
+                b = self.expr(e.args[0])
+                if b.ty.k != "List" or b.path is None:
+                    self.fail("heappop on something that is not a list lvalue", e)
+                r = self.fresh("hp")
+                self.monadic()
+                self.emit("let %s ← PyHeap.pop %s" % (r, b.text))
+                self.assign_path(b.path, "%s.2" % r, e)
+                return Val("%s.1" % r, b.ty.a[0], fresh=True)
             if n == "deque" and not e.args:
                 if want is None or want.k != "List":
                     self.fail("deque() where %r is expected" % want, e)
-                return Val("[]", want)
+                return Val("[]", want, fresh=True)
             if n in self.env_fns:
                 ptys, rty = self.env_fns[n]
+                if len(e.args) == 1 and isinstance(e.args[0], ast.Starred):
+                    tv = self.expr(e.args[0].value)
+                    if tv.ty.k != "Tuple" or list(tv.ty.a) != ptys:
+                        self.fail("*%s does not supply the arguments of %s" % (ast.unparse(e.args[0].value), n), e)
+                    projs = [tv.text + "".join(".2" for _ in range(i)) + (".1" if i < len(ptys) - 1 else "") for i in range(len(ptys))]
+                    return Val("(%s%s)" % (lean_local(n.replace(".", "_")), "".join(" " + p for p in projs)), rty, None, tv.raises)
                 if len(ptys) != len(e.args):
                     self.fail("%s expects %d arguments" % (n, len(ptys)), e)
                 args = [self.expr(a, t) for a, t in zip(e.args, ptys)]
-                return Val("(%s%s)" % (lean_local(n), "".join(" " + atom(a.text) for a in args)), rty, None, any(a.raises for a in args))
+                return Val("(%s%s)" % (lean_local(n.replace(".", "_")), "".join(" " + atom(a.text) for a in args)), rty, None, any(a.raises for a in args))
             key = (None, n)
             if key in A.fns:
                 return self.call_translated(A.fns[key], None, e.args, e)
@@ -1016,8 +1143,13 @@ class Fx:
                 return Val("(lower %s)" % b.text, STR, None, b.raises)
             if m in ("items", "values", "keys") and not e.args:
                 t, et, _p, r = self.iterable(e)
-                return Val(t, T("List", et), None, r)
-            b = self.expr(f.value)
+                return Val(t, T("List", et), None, r, view=True)
+            ent = self.try_effect(e, e)
+            if ent:
+                if "returns" not in ent:
+                    self.fail("the effect %s has no value" % m, e)
+                return Val(ent["returns"][1], A.ty(ent["returns"][0]))
+            b = self.unwrap(self.expr(f.value), e)
             if b.ty.k == "Dict":
                 eq = A.eq_of(b.ty.a[0], self)
                 if m == "get" and len(e.args) in (1, 2):
@@ -1027,11 +1159,17 @@ class Fx:
                     d = self.expr(e.args[1], b.ty.a[1])
                     return Val("(PyDict.getD %s %s %s %s)" % (eq, b.text, k.text, d.text), b.ty.a[1], None, b.raises or k.raises or d.raises)
                 if m == "copy" and not e.args:
-                    return Val(b.text, b.ty, None, b.raises)
+                    return Val(b.text, b.ty, None, b.raises, fresh=True)
+                if m == "pop" and len(e.args) == 2 and isinstance(e.args[1], ast.Constant) and e.args[1].value is None and b.path is not None:
+                    k = self.expr(e.args[0], b.ty.a[0])
+                    r = self.fresh("pp")
+                    self.emit("let %s := PyDict.popD %s %s %s" % (r, eq, b.text, k.text))
+                    self.assign_path(b.path, "%s.2" % r, e)
+                    return Val("%s.1" % r, T("Opt", b.ty.a[1]), fresh=True)
                 if m == "setdefault" and len(e.args) == 2:
                     return self.setdefault(b, e, eq)
             if b.ty.k in ("List", "Set") and m == "copy" and not e.args:
-                return Val(b.text, b.ty, None, b.raises)
+                return Val(b.text, b.ty, None, b.raises, fresh=True)
             if b.ty.k == "List" and m == "popleft" and not e.args:
                 if b.path is None:
                     self.fail("popleft on something that is not an lvalue", e)
@@ -1039,7 +1177,7 @@ class Fx:
                 self.monadic()
                 self.emit("let %s ← PyList.popleft %s" % (r, b.text))
                 self.assign_path(b.path, "%s.2" % r, e)
-                return Val("%s.1" % r, b.ty.a[0])
+                return Val("%s.1" % r, b.ty.a[0], fresh=True)
             if b.ty.k == "Opaque":
                 sp = A.opaque[b.ty.a[0]]
                 if m in sp.get("methods", {}):
@@ -1121,6 +1259,9 @@ class Fx:
             self.info.uses_lower = True
         text = "%s%s %s" % (fi.lean, " lower" if fi.uses_lower else "", " ".join(a.text for _p, a in args))
         comps = ([] if fi.ret == NONE else ["ret"]) + list(fi.mutated) + (["⟨effects⟩"] if fi.effects else [])
+        if not fi.monadic and not fi.mutated and not fi.effects and fi.ret != NONE:
+            # a pure function: an ordinary application (usable under `and` / `or` and inside comprehensions)
+            return Val("(%s)" % text, fi.ret, None, any(a.raises for _p, a in args))
         r = self.fresh("r")
         if fi.monadic:
             self.monadic()
@@ -1134,7 +1275,7 @@ class Fx:
             return r + "".join(".2" for _ in range(i)) + (".1" if i < len(comps) - 1 else "")
 
         for pn, path in wb:
-            self.assign_path(path, comp(comps.index(pn)), node)
+            self.assign_path(path, comp(comps.index(pn)), node, via="mutate")
         if fi.effects:
             self.info.effects = True
             self.emit("effects := effects ++ %s" % comp(len(comps) - 1))
@@ -1155,6 +1296,9 @@ class Fx:
             if v is except_var:
                 continue
             if any(p.overlaps(path) for p in v.aliases):
+                if len(v.aliases) > 1:
+                    self.fail("the object held by %s is stored in several places (%s) and is changed through one of them" %
+                              (v.name, ", ".join(map(repr, v.aliases))), None)
                 v.dead = "%s changed at %s" % (path, why)
                 for s in self.kill_log:
                     s.add(v)
@@ -1169,6 +1313,8 @@ class Fx:
             self.fail("mutation of (an object reached through) the loop variable %s: its container would need a write-back" % path.root, node)
         if v.narrowed:
             self.fail("assignment to the narrowed variable " + path.root, node)
+        if v.untracked:
+            self.fail("%s may be an alias of an object held elsewhere (%s): changing it is outside the subset" % (path.root, v.untracked), node)
         return v
 
     def build_update(self, path, newtext, node):
@@ -1220,6 +1366,8 @@ class Fx:
             for ap in list(v.aliases):
                 av = self.root_var(ap, node)
                 t = self.build_update(ap, lean_local(path.root), node)
+                if hasattr(self, "mut_log"):
+                    self.mut_log.append((len(self.lines), ap))
                 self.emit("%s := %s" % (lean_local(ap.root), strip_outer(t)))
                 av.reassigned = True
                 if av.is_param and ap.root not in self.info.mutated:
@@ -1248,6 +1396,8 @@ class Fx:
                 if term:
                     self.fail("unreachable statement", s)
                 term = bool(self.stmt(s, stmts[i + 1:]))
+                if term and isinstance(s, ast.If) and self.static_cond(s.test) is not None:
+                    break  # what follows a statically decided, terminating `if` is dead code (`return NotImplemented`)
                 i += 1
             if len(self.lines) == n0:
                 self.emit("pure ()")
@@ -1308,6 +1458,9 @@ class Fx:
             self.emit("continue")
             return True
         if isinstance(s, ast.Break):
+            flags = getattr(self, "loop_flags", [])
+            if flags and flags[-1] is not None:
+                self.emit("%s := true" % flags[-1])  # the translated `while` was left by `break`, not by running out of its bound
             self.emit("break")
             return True
         if isinstance(s, ast.Raise):
@@ -1332,6 +1485,13 @@ class Fx:
             if s.value is None:
                 self.fail("annotation without a value", s)
             return self.assign(s.target, s.value, A.annot_ty(s.annotation), s)
+        if isinstance(s, ast.AugAssign) and isinstance(s.target, ast.Attribute):
+            tv = self.expr(s.target)
+            if tv.path is None or tv.ty not in (NAT, NUM) or not isinstance(s.op, ast.Add):
+                self.fail("augmented assignment to a field outside the subset", s)
+            inc = self.expr(s.value, tv.ty)
+            self.assign_path(tv.path, "(%s + %s)" % (tv.text, inc.text), s)
+            return False
         if isinstance(s, ast.AugAssign):
             if not isinstance(s.target, ast.Name):
                 self.fail("augmented assignment to a non-variable", s)
@@ -1350,7 +1510,9 @@ class Fx:
                     self.fail("del on %r" % b.ty, s)
                 k = self.expr(t.slice, b.ty.a[0])
                 if k.raises:
-                    self.raising_subexpr(t)
+                    kn = self.fresh("key")
+                    self.emit("let %s := %s" % (kn, k.text))
+                    k = Val(kn, k.ty)
                 eq = A.eq_of(b.ty.a[0], self)
                 self.monadic()
                 self.mutate_path(b.path, lambda cur: "(← PyDict.delItem %s %s %s)" % (eq, cur, k.text), s, cur=b.text)
@@ -1375,7 +1537,11 @@ class Fx:
                 val = self.expr(value, want)
                 if val.ty == NONE:
                     self.fail("assignment of None to an untyped local", node)
+                if val.view:
+                    self.fail("a live dict view (`.keys()` / `.values()` / `.items()`) kept in a variable is outside the subset (wrap it in list(...))", node)
                 nv = Var(name, val.ty)  # declared after the right-hand side is translated
+                if is_mutable_ty(val.ty) and val.path is None and not val.fresh:
+                    nv.untracked = "it was obtained from `%s`" % ast.unparse(value)
                 tok = "⟪%s#%d⟫" % (name, len(self.tokens))
                 nv.token = tok
                 self.tokens[tok] = nv
@@ -1416,7 +1582,23 @@ class Fx:
             self.emit("let (%s) := %s" % (", ".join(pats), val.text))
             return False
         if isinstance(tgt, ast.Attribute):
-            b = self.expr(tgt.value)
+            b = self.unwrap(self.expr(tgt.value), node)
+            if b.ty.k == "Ref":
+                fs = A.fields[b.ty.a[0]]
+                if tgt.attr not in fs:
+                    self.fail("assignment to the unknown field " + tgt.attr, node)
+                lf, ft = fs[tgt.attr]
+                val = self.expr(value, ft)
+                owner, sf = A.store_of(b.ty.a[0])
+                if self.cls != owner:
+                    self.fail("an object of the identity class %s is changed outside its owner %s" % (b.ty.a[0], owner), node)
+                idn = b.text
+                if b.raises:
+                    idn = self.fresh("ref")
+                    self.emit("let %s := %s" % (idn, b.text))
+                self.assign_path(Path("self", (("f", "⟨store⟩", sf),)),
+                                 "(PyStore.modify self.%s %s (fun o => { o with %s := %s }))" % (sf, idn, lf, val.text), node)
+                return False
             if b.ty.k != "Class" or b.path is None:
                 self.fail("attribute assignment on %r" % b.ty, node)
             fs = A.fields[b.ty.a[0]]
@@ -1433,9 +1615,19 @@ class Fx:
             if b.ty.k != "Dict" or b.path is None:
                 self.fail("subscript assignment on %r" % b.ty, node)
             k = self.expr(tgt.slice, b.ty.a[0])
-            val = self.expr(value, b.ty.a[1])
             if k.raises:
-                self.raising_subexpr(tgt)
+                kn = self.fresh("key")
+                self.emit("let %s := %s" % (kn, k.text))
+                k = Val(kn, k.ty)
+            n_before_val = len(self.lines)
+            val = self.expr(value, b.ty.a[1])
+            if val.raises and (b.raises or "(← " in k.text):
+                # CPython evaluates the assigned value before the subscripts of the target: bind it first
+                if len(self.lines) != n_before_val:
+                    self.fail("an assigned value with effects next to a raising target subscript", node)
+                vn = self.fresh("val")
+                self.emit("let %s := %s" % (vn, val.text))
+                val = Val(vn, val.ty, val.path, False, val.fresh)
             eq = A.eq_of(b.ty.a[0], self)
             self.mutate_path(b.path, lambda cur: "(PyDict.set %s %s %s %s)" % (eq, atom(cur), k.text, atom(val.text)), node, cur=b.text)
             self.note_stored(val, b.path.extend(("k", k.text, eq, names_in(tgt.slice))), node)
@@ -1444,10 +1636,30 @@ class Fx:
 
     def note_stored(self, val, path, node):
         """a mutable object held by a variable was stored into a container: the variable now aliases that place"""
+        if val.path is not None and val.path.steps and is_mutable_ty(val.ty):
+            self.fail("storing an object that lives in another container (%r) into %r: two places for one object" % (val.path, path), node)
+        if val.path is None and is_mutable_ty(val.ty) and not val.fresh:
+            self.fail("storing an object of unknown provenance into %r" % path, node)
         if val.path is not None and not val.path.steps and is_mutable_ty(val.ty):
             v = self.lookup(val.path.root)
             if v is not None and not any(repr(p) == repr(path) for p in v.aliases):
                 v.aliases.append(path)
+
+    def lt_of(self, t, node):
+        """the `__lt__` heapq uses on elements of type t"""
+        A = self.area
+        if t.k in ("Num", "Nat"):
+            return "(fun a b => decide (a < b))"
+        if t.k == "Ref":
+            cls = t.a[0]
+            if (cls, "__lt__") not in A.fns:
+                self.fail("heapq on %s, whose __lt__ is not translated" % cls, node)
+            owner, sf = A.store_of(cls)
+            if self.cls != owner:
+                self.fail("heapq on objects of %s outside their owner %s" % (cls, owner), node)
+            self.read_var("self", node)
+            return "(fun a b => %s (PyStore.getD self.%s a default) (PyStore.getD self.%s b default))" % (A.fns[(cls, "__lt__")].lean, sf, sf)
+        self.fail("heapq on elements of type %r" % t, node)
 
     def try_effect(self, e, node):
         """a call that the spec's EFFECTS table maps to a returned effect (`loop.call_at(when, self.async_ready)`); -> done?"""
@@ -1459,7 +1671,13 @@ class Fx:
             if e.func.attr != ent["method"] or len(e.args) != len(ent["args"]):
                 continue
             recv = self.try_expr(e.func.value)
-            if recv is None or recv.ty != A.ty(ent["recv"]):
+            if recv is None:
+                continue
+            want_recv = A.ty(ent["recv"]) if ent["recv"] != "self" else A.self_ty(self.cls)
+            if recv.ty.k == "Opt" and recv.ty.a[0] == want_recv:
+                recv = self.unwrap(self.expr(e.func.value), node)
+                self.emit("let _ := %s" % recv.text)  # `None.method(...)` is an AttributeError
+            if recv.ty != want_recv:
                 continue
             vals = []
             for a, pat in zip(e.args, ent["args"]):
@@ -1483,7 +1701,7 @@ class Fx:
                     vals.append(atom(self.expr(inner, t).text))
             self.info.effects = True
             self.emit("effects := effects ++ [%s]" % ent["lean"].format(*vals))
-            return True
+            return ent
         return False
 
     def expr_stmt(self, e, node):
@@ -1567,6 +1785,16 @@ class Fx:
         if isinstance(e, ast.Call) and isinstance(e.func, ast.Name) and (None, e.func.id) in A.fns:
             self.call_translated(A.fns[(None, e.func.id)], None, e.args, e)
             return False
+        if isinstance(e, ast.Call) and isinstance(e.func, ast.Name) and e.func.id == "heappush" and len(e.args) == 2 and not e.keywords:
+            b = self.expr(e.args[0])
+            if b.ty.k != "List" or b.path is None:
+                self.fail("heappush on something that is not a list lvalue", node)
+            x = self.expr(e.args[1], b.ty.a[0])
+            self.mutate_path(b.path, lambda cur: "(PyHeap.push %s %s %s)" % (self.lt_of(b.ty.a[0], node), atom(cur), atom(x.text)), node, cur=b.text)
+            return False
+        if isinstance(e, ast.Call) and isinstance(e.func, ast.Name) and e.func.id == "heappop" and len(e.args) == 1 and not e.keywords:
+            self.expr(e)
+            return False
         self.fail("expression statement outside the subset: " + ast.unparse(e), node)
 
     def if_stmt(self, s, rest):
@@ -1612,6 +1840,30 @@ class Fx:
             self.ind -= 1
             return t1 and t2
         # a raising test is lifted in front of the `if` (statement position): Python's order
+        if (len(s.body) == 1 and len(s.orelse) == 1 and all(isinstance(b, ast.Assign) and len(b.targets) == 1 and isinstance(b.targets[0], ast.Name)
+                                                            for b in (s.body[0], s.orelse[0]))
+                and s.body[0].targets[0].id == s.orelse[0].targets[0].id and self.lookup(s.body[0].targets[0].id) is None):
+            # a variable defined by both branches of an `if`: one `let` whose value is chosen inside a nested `do`
+            name = s.body[0].targets[0].id
+            c = self.cond_val(s.test, top=True)
+            a = self.expr(s.body[0].value)
+            b = self.expr(s.orelse[0].value, a.ty)
+            if a.ty != b.ty or is_mutable_ty(a.ty):
+                self.fail("the two definitions of %s have different / mutable types" % name, s)
+            nv = Var(name, a.ty)
+            nv.token = "⟪%s#%d⟫" % (name, len(self.tokens))
+            self.tokens[nv.token] = nv
+            bind = "←" if (a.raises or b.raises) else ":="
+            if a.raises or b.raises:
+                self.emit("let%s %s ← (do" % (nv.token, lean_local(name)))
+                self.emit("  if %s then" % c.text)
+                self.emit("    return %s" % a.text)
+                self.emit("  else")
+                self.emit("    return %s)" % b.text)
+            else:
+                self.emit("let%s %s := if %s then %s else %s" % (nv.token, lean_local(name), c.text, a.text, b.text))
+            self.scopes[-1][name] = nv
+            return False
         st = self.static_cond(s.test)
         if st is not None:
             # a statically decided test (`if TYPE_CHECKING:`): only the live branch exists
@@ -1643,6 +1895,7 @@ class Fx:
                 v = self.expr(st.value, self.ret)
                 if len(self.lines) != snap or v.raises:
                     del self.lines[snap:]
+                    self.__dict__.get("_once", {}).clear()
                     return None
                 return "return ⟦ret:%s⟧" % ("" if self.ret == NONE else v.text)
             except Fail:
@@ -1663,8 +1916,11 @@ class Fx:
         if fv.ty not in (NAT,) or fv.raises:
             self.fail("the while_fuel expression must be a pure natural number", s)
         fname = self.fresh("fuel")
+        flag = self.fresh("left")
         self.emit("let %s := %s" % (fname, fv.text))
+        self.emit("let mut %s := false" % flag)
         self.emit("for _ in List.range (%s + 1) do" % fname)
+        self.loop_flags = getattr(self, "loop_flags", []) + [flag]
         self.ind += 1
         self.scopes.append({})
         reads, kills = set(), set()
@@ -1675,8 +1931,10 @@ class Fx:
             outer_vars.update(sc.values())
         c = self.cond_val(s.test, top=True)
         self.emit("if %s then" % neg(c.text))
+        self.emit("  %s := true" % flag)
         self.emit("  break")
         self.block(s.body, new_scope=False)
+        self.loop_flags = self.loop_flags[:-1]
         self.scopes.pop()
         self.reads_log.pop()
         self.kill_log.pop()
@@ -1684,9 +1942,8 @@ class Fx:
         stale = [v.name for v in kills if v in outer_vars and v in reads]
         if stale:
             self.fail("alias %s would be stale on the next iteration of the loop" % ", ".join(sorted(stale)), s)
-        c2 = self.cond_val(s.test, top=True)
         self.monadic()
-        self.emit("pyFuel %s" % c2.text)
+        self.emit("pyFuel (!%s)" % flag)
         return False
 
     MUTATORS = ("append", "remove", "pop", "add", "clear", "discard", "setdefault", "update", "popleft")
@@ -1752,6 +2009,7 @@ class Fx:
         pat = self.bind_target(s.target, et, s)
         self.emit("for %s in %s do" % (pat, src))
         self.ind += 1
+        self.loop_flags = getattr(self, "loop_flags", []) + [None]
         outer_vars = set()
         for sc in self.scopes[:-1]:
             outer_vars.update(sc.values())
@@ -1759,6 +2017,7 @@ class Fx:
         self.iter_paths = getattr(self, "iter_paths", [])
         self.iter_paths.append(ipath)
         self.block(s.body, new_scope=False)
+        self.loop_flags = self.loop_flags[:-1]
         self.iter_paths.pop()
         self.ind -= 1
         self.scopes.pop()
@@ -1838,7 +2097,7 @@ def translate_function(area, fn, spec, cls):
     except Fail as f:
         f.file = area.rel
         raise
-    lean = spec.get("lean") or ((cls + "." if cls else "") + fn.name.lstrip("_"))
+    lean = spec.get("lean") or ((area.cls_lean(cls) + "." if cls else "") + fn.name.strip("_"))
     params = [(n, area.ty(t)) for n, t in spec["params"]]
     info = FnInfo(lean, params, area.ty(spec["ret"]), has_self, cls)
     fx = Fx(area, info, fn, spec, cls)
@@ -1881,7 +2140,7 @@ def translate_function(area, fn, spec, cls):
     sig = "".join(" (%s : %s)" % (lean_local(n), area.lean_ty(area.self_ty(cls)) if n == "self" else area.lean_ty(dict(params)[n])) for n in pnames)
     for e in spec.get("env", []):
         if len(e) == 3:
-            sig += " (%s : %s)" % (lean_local(e[0]), " → ".join([area.lean_ty(area.ty(t)) for t in e[2]] + [area.lean_ty(area.ty(e[1]))]))
+            sig += " (%s : %s)" % (lean_local(e[0].replace(".", "_")), " → ".join([area.lean_ty(area.ty(t)) for t in e[2]] + [area.lean_ty(area.ty(e[1]))]))
         else:
             sig += " (%s : %s)" % (lean_local(e[0]), area.lean_ty(area.ty(e[1])))
     info.env = list(spec.get("env", []))
@@ -1909,11 +2168,17 @@ def translate_init(area, cdef, cspec):
     fs = area.fields[cls]
     vals = {}
     iparams = [(n, area.ty(t)) for n, t in cspec.get("init_params", [])]
-    info = FnInfo(cls + ".init", iparams, NONE, False, cls)
+    info = FnInfo(area.cls_lean(cls) + ".init", iparams, NONE, False, cls)
     fx = Fx(area, info, init, {"params": []}, cls)
     for n, t in iparams:
         fx.declare(n, t, is_param=True)
+    init_env = cspec.get("init_env", {})
     for s in gen_lean.strip_doc(init.body):
+        t0 = s.target if isinstance(s, ast.AnnAssign) else (s.targets[0] if isinstance(s, ast.Assign) and len(s.targets) == 1 else None)
+        if isinstance(t0, ast.Attribute) and t0.attr in init_env:
+            # a field initialised from the environment (`time.get_clock_info(...)`): an extra parameter of `init`
+            vals[t0.attr] = lean_local(init_env[t0.attr])
+            continue
         if isinstance(s, ast.AnnAssign) and s.value is not None:
             tgt, val = s.target, s.value
         elif isinstance(s, ast.Assign) and len(s.targets) == 1:
@@ -1927,6 +2192,9 @@ def translate_init(area, cdef, cspec):
         if tgt.attr in vals:
             raise Fail("%s.__init__ assigns %s twice" % (cls, tgt.attr), s, area.rel)
         vals[tgt.attr] = fx.expr(val, fs[tgt.attr][1]).text
+    for f, (lf, ft) in fs.items():
+        if ft.k == "Store":
+            vals[f] = "PyStore.empty"
     missing = [f for f in fs if f not in vals]
     if missing:
         raise Fail("%s.__init__ no longer assigns %s" % (cls, ", ".join(missing)), init, area.rel)
@@ -1934,8 +2202,9 @@ def translate_init(area, cdef, cspec):
     if fx.lines or info.monadic:
         raise Fail("%s.__init__: an initialiser with statements / raise sites is outside the subset" % cls, init, area.rel)
     sig = "".join(" (%s : %s)" % (lean_local(n), area.lean_ty(t)) for n, t in iparams)
+    sig += "".join(" (%s : %s)" % (lean_local(pn), area.lean_ty(fs[f][1])) for f, pn in init_env.items())
     area.inits[cls] = iparams
-    return "/-- `%s.__init__` (%s:%d) -/\ndef %s.init%s : %s := { %s }\n" % (cls, cspec.get("source", area.rel), init.lineno, cls, sig, cls, body)
+    return "/-- `%s.__init__` (%s:%d) -/\ndef %s.init%s : %s := { %s }\n" % (cls, cspec.get("source", area.rel), init.lineno, area.cls_lean(cls), sig, area.cls_lean(cls), body)
 
 
 def calls_in(fn, cls, keys):
@@ -1947,6 +2216,46 @@ def calls_in(fn, cls, keys):
             if isinstance(n.func, ast.Name) and (None, n.func.id) in keys:
                 out.add((None, n.func.id))
     return out
+
+
+def class_pins(c, cdef, tree, rel):
+    """what decides *which* body runs for a spec'd class is pinned: base classes, class decorators, `__slots__`, assignments to the
+    class's attributes at module level, subclasses in the same module that override a translated method, properties / other
+    definitions shadowing a translated method"""
+    cls = c["py"]
+    bases = [ast.unparse(b) for b in cdef.bases]
+    if bases != c.get("bases", []):
+        raise Fail("class %s now derives from %s (spec: %s)" % (cls, bases, c.get("bases", [])), cdef, rel)
+    if cdef.decorator_list or cdef.keywords:
+        raise Fail("class %s has decorators / a metaclass" % cls, cdef, rel)
+    translated = {m["name"] for m in c["methods"]} | (set() if c.get("opaque") else {"__init__"})
+    fieldnames = {f[0] for f in c["fields"]}
+    for n in cdef.body:
+        if isinstance(n, ast.Assign) and any(isinstance(t, ast.Name) and t.id == "__slots__" for t in n.targets) and not c.get("opaque"):
+            try:
+                slots = set(ast.literal_eval(n.value))
+            except (ValueError, SyntaxError):
+                raise Fail("class %s: __slots__ is not a literal" % cls, n, rel)
+            if not fieldnames <= slots:
+                raise Fail("class %s: __slots__ lacks the spec'd fields %s" % (cls, sorted(fieldnames - slots)), n, rel)
+        if isinstance(n, (ast.Assign, ast.AnnAssign)):
+            tg = n.targets if isinstance(n, ast.Assign) else [n.target]
+            for t in tg:
+                if isinstance(t, ast.Name) and t.id in translated:
+                    raise Fail("class %s: the translated method %s is re-bound in the class body" % (cls, t.id), n, rel)
+    for n in ast.walk(tree):
+        if isinstance(n, (ast.Assign, ast.AugAssign, ast.AnnAssign, ast.Delete)):
+            tg = n.targets if isinstance(n, (ast.Assign, ast.Delete)) else [n.target]
+            for t in tg:
+                if isinstance(t, ast.Attribute) and isinstance(t.value, ast.Name) and t.value.id == cls:
+                    raise Fail("module-level code assigns to %s.%s" % (cls, t.attr), n, rel)
+        if isinstance(n, ast.Call) and isinstance(n.func, ast.Name) and n.func.id in ("setattr", "delattr") and n.args \
+                and isinstance(n.args[0], ast.Name) and n.args[0].id == cls:
+            raise Fail("setattr/delattr on the class %s" % cls, n, rel)
+        if isinstance(n, ast.ClassDef) and n is not cdef and any(ast.unparse(b) == cls for b in n.bases):
+            over = [m.name for m in n.body if isinstance(m, (ast.FunctionDef, ast.AsyncFunctionDef)) and m.name in translated]
+            if over:
+                raise Fail("class %s overrides the translated method(s) %s of %s" % (n.name, ", ".join(over), cls), n, rel)
 
 
 def gen_area(repo, spec, common, cenv):
@@ -2014,6 +2323,7 @@ def gen_area(repo, spec, common, cenv):
             f.file = crel
             raise
         cdefs[c["py"]] = cdef
+        class_pins(c, cdef, ctree, crel)
         for ms in c["methods"]:
             try:
                 fn = gen_lean.find_def(tree, c["py"] + "." + ms["name"])
@@ -2068,9 +2378,11 @@ def gen_area(repo, spec, common, cenv):
             lines.append("/-! class `%s` (%s:%d): its objects are the model type `%s` -/\n" % (c["py"], rel, cdef.lineno, area.opaque[c["opaque"]]["lean"]))
             continue
         lines.append("/-- class `%s` (%s:%d) -/" % (c["py"], c.get("source", rel), cdef.lineno))
-        lines.append("structure %s where" % c["py"])
+        lines.append("structure %s where" % area.cls_lean(c["py"]))
         for f, (lf, ft) in area.fields[c["py"]].items():
             lines.append("  %s : %s" % (lf, area.lean_ty(ft)))
+        if c.get("identity"):
+            lines.append("  deriving Inhabited")
         lines.append("")
         lines.append(translate_init(area, cdef, c))
     names = set()
